@@ -1,15 +1,28 @@
-"""C05 - bounded relational contract (E3, see vf/e3/isohash.py)."""
+"""C05 - E1: the bookkeeping contract of the matcher's helper _update_state (vf/props/e1_vf2.py, unbounded);
+E3: bounded relational contract of the enumeration against the brute-force oracle (vf/e3/isohash.py)."""
 import time
 
 from ..core import Report
 from ..e3 import isohash
+from ..par import pmap
+from . import e1_vf2
 
 
 def run(tier, seed):
     t0 = time.time()
     rep = Report("C05", tier, seed)
-    rep.level = "exploration"
+    rep.level = "other"
+    for obs, _ in pmap("vf.props.e1_vf2", [("ob_update_state", (10000 if tier == "quick" else 40000,))]):
+        rep.obs.extend(obs)
     isohash.run_c05(rep, tier, seed)
-    rep.rule = "E3 scope (DESIGN Appendix B); distinct_nontrivial = distinct base graphs"
-    rep.assumptions = ["bounded: only the enumerated scope is covered"]
+    rep.functions = e1_vf2.functions()
+    rep.rule = "E1: one VC per clause of the bookkeeping invariant; E3 scope (DESIGN Appendix B); distinct_nontrivial = distinct base graphs"
+    rep.trusted_base = ["pyvc encoding of CPython semantics + symbolic heap (z3 arrays)", "generic-element summarisation of the two set comprehensions of _update_state", "z3 5.1"]
+    rep.assumptions = ["proved: _update_state re-establishes 'frontier_i = unmapped atoms with a mapped neighbour, external_i = the other unmapped atoms' for both graphs and touches nothing else, "
+                       "given neighbourhoods that are symmetric, irreflexive and closed over the atoms (what _sanity_check_and_init builds from a graph - not proved here)",
+                       "NOT proved: _revert_state (two loops, would need invariants), _find_candidates, the feasibility functions and the main loop; exactness of the enumeration is decided by the bounded part only",
+                       "bounded: only the enumerated scope is covered"]
+    proof = [o for o in rep.obs if o.kind == "proof"]
+    rep.explanation = f"{len(proof)} proof obligations on _update_state; the enumeration itself is bounded (coverage.bounded_groups)"
+    rep.samples = [o.name for o in proof[:6]]
     return rep, t0
